@@ -566,10 +566,23 @@ class BuiltinMixin:
         return self._dictlike(st, recv, f)
 
     def m_update(self, st, recv, pos, kw):
-        c = self.contracts.get('$dict.update')
-        if c is None:
-            raise Unsupported('dict.update')
-        return self.apply_contract(st, c, [recv] + pos, kw)
+        """d.update(other) for a dict object d and a dict-like other: other's entries win, the rest is kept"""
+        if kw or len(pos) != 1 or isinstance(pos[0], Static):
+            raise Unsupported('dict.update with keywords / several arguments')
+        src = pos[0]
+        out = []
+        a, b = self.split(st, z3.And(V.is_obj(recv), self.isinst_ref(V.ref(recv), 'dict'), self.is_maplike(st, src)))
+        if b is not None:
+            self.unsupported(b, 'dict.update on a non-dict object or with a non-mapping argument')
+        if a is not None:
+            old, new = self.map_of(a, recv), self.map_of(a, src)
+            res = self.fresh('upd', z3.ArraySort(Str, V))
+            k = z3.String('up!k')
+            a.assume(qforall([k], z3.Select(res, k) == z3.If(z3.Select(new, k) != ABSENT, z3.Select(new, k), z3.Select(old, k)),
+                             patterns=[z3.Select(res, k)]))
+            self.set(a, recv, '$val', V.dict(res))
+            out.append((a, 'ok', NONE))
+        return out
 
     def m_clear(self, st, recv, pos, kw):
         def f(s):
